@@ -137,6 +137,10 @@ func makeEntries(k, lg, maxDepth int, small bool) ([]*hEntry, *verifmodel.NameHa
 	var es []*hEntry
 	for i := 0; i < k; i++ {
 		e := &hEntry{hash: verifrt.Bytes(8), link: fakeLink(i), tsize: verifrt.U64() & (1<<uint(verifrt.Param("sizebits", 7)) - 1)}
+		if i > 0 && verifrt.Param("sharetargets", 1) == 1 && verifrt.Choose(2) == 1 {
+			// distinct names may point at one target (two identical files)
+			e.link = es[i-1].link
+		}
 		if small {
 			// restrict buckets on every consumable level to {0,1,F-1}: min, adjacent, max
 			for d := 0; d < maxDepth; d++ {
